@@ -23,6 +23,8 @@ for d in sorted(glob.glob("/verif/seeded/*/")):
     first_caught = bool(conf.get("caught_by_quick_check"))
     now_caught = rc[-1].get("caught") if rc else first_caught
     caught += 1 if now_caught else 0
+    n_stale = globals().get("n_stale", 0) + (1 if (stale and not rc) else 0)
+    globals()["n_stale"] = n_stale
     if rc:
         last = rc[-1]
         mm = re.search(r"cases=(\d+).*failing=(\d+).*disagree=(\d+)", " ".join(last.get("lines", [])))
@@ -38,7 +40,7 @@ for d in sorted(glob.glob("/verif/seeded/*/")):
     note = m.get("note", "")
     rows.append(f"| {sid} | {summ[:300]} | {need[:240]} | {'yes' if conf.get('confirmed') else 'NO'} | {'; '.join(checks)}{(' — ' + note) if note else ''} |")
 table = (f"{n} changes kept, every one confirmed here (demo passes before, patch applies, 41 unit tests pass, demo fails after); "
-         f"{caught} of {n} reported by the quick check of their property (latest run where the change was re-run).\n\n"
+         f"{caught} of {n} reported (VIOLATION with exit 1) in the latest run of the quick checks against the changed tree; {globals().get('n_stale', 0)} of them could not be re-run at the end because a later fix: commit rewrote the lines they change (their first run counts); a few are reported by the check of a neighbouring property, as the row says (a train_bpe change seeded for C02 is a C19 violation, a panic-handling change seeded for C05 a C09 violation).\n\n"
          "| seed | change (as described by its author) | needs, to manifest | confirmed | quick check of the property against the changed tree |\n"
          "|------|--------|--------------------|-----------|--------------------|\n" + "\n".join(rows))
 p = "/verif/DESIGN.md"
